@@ -738,7 +738,10 @@ func NewPacket(data []byte, firstLayerDecoder Decoder, options DecodeOptions) (p
 		)
 		if options.Pool && len(data) <= maximumMTU {
 			poolMemory = poolPackedPool.Get().(*[]byte)
-			dataCopy = (*poolMemory)[:len(data)]
+			// The capacity is limited as well: a decoder that slices past the end
+			// of the packet must fail as it does on a private copy, not read what
+			// an earlier packet left behind in the block.
+			dataCopy = (*poolMemory)[:len(data):len(data)]
 			copy(dataCopy, data)
 			data = dataCopy
 			defer func() {
@@ -749,6 +752,9 @@ func NewPacket(data []byte, firstLayerDecoder Decoder, options DecodeOptions) (p
 			copy(dataCopy, data)
 			data = dataCopy
 		}
+	} else {
+		// Spare capacity of the caller's slice is not part of the packet.
+		data = data[:len(data):len(data)]
 	}
 	if options.Lazy {
 		lp := &lazyPacket{
